@@ -35,6 +35,12 @@ type segmentStack struct {
 
 	// childSegStacks recursively store child collection segmentStacks.
 	childSegStacks map[string]*segmentStack
+
+	// numBatches is the number of executed batches that this stack was
+	// built from; maintained for a collection's stackDirtyTop only,
+	// where a batch need not add a segment to the top-level stack
+	// (it may only touch child collections).
+	numBatches int
 }
 
 func (ss *segmentStack) addRef() {
